@@ -82,6 +82,8 @@ def norm(x):
     float vs bool, None) and makes NaN equal to itself."""
     if x is None or isinstance(x, (str, bytes)):
         return x
+    if type(x).__module__ == 'numpy':
+        return ('np', type(x).__name__, repr(x))          # numpy.float64 is a float subclass: keep it distinct
     if isinstance(x, bool):
         return ('b', x)
     if isinstance(x, int):
